@@ -95,6 +95,11 @@ def body(ctx, case):
     pin = float(np.sum(np.abs(u) ** 2)) * case["d1"] ** 2
     pout = float(np.sum(np.abs(out) ** 2)) * dout ** 2
     ctx.close(pout, pin, TOL, "%s power conservation (m=%r, z=%r)" % (case["prop"], case["m"], case["z"]), scale=max(pin, 1e-300))
+    # homogeneity over many decades of amplitude (a field of 1e-12 is as good a field as one of 1)
+    for sfac in (1e-12, 1e-9, 1e7):
+        with np.errstate(all="ignore"):
+            os_, _ = run_prop(case, u * sfac)
+        ctx.close(np.asarray(os_), sfac * out, TOL, "%s: P(s u) == s P(u)" % case["prop"], scale=sfac * (float(np.sqrt(np.sum(np.abs(out) ** 2))) or 1.0), name=case["prop"] + " amplitude homogeneity")
     a, b = case["a"], case["b"]
     with np.errstate(all="ignore"):
         ov, _ = run_prop(case, v)
